@@ -1,7 +1,7 @@
 INIT Init
 NEXT Next
 CONSTANTS
-  Shapes <- cShapes
+  Shapes <- cShapesC12
   SymNames <- cSyms
   NameSeq <- cNoSeq
   SensorNames <- cSensors
@@ -16,15 +16,15 @@ CONSTANTS
   CalVals <- cCalVals
   PNoiseVals <- cPNoise
   SNoiseVals <- cSNoise
-  Ks <- cKsAll
+  Ks <- cKsNone
   PDiag <- cPDiag
   PVec <- cPVec
   ZDeltas <- cZDeltas
-  Acts <- cActsAll
-  MinSteps = 4
-  MaxSteps = 8
+  Acts <- cActsNone
+  MinSteps = 0
+  MaxSteps = 0
   RationalOnly = TRUE
-  NeedDt = FALSE
+  NeedDt = TRUE
   BindLeaves = TRUE
   EmitOn = TRUE
 INVARIANT InvCovValid
